@@ -199,14 +199,20 @@ def r5(R, repo):
   chain = []
   st = [s for s in f.node.body if isinstance(s, ast.If)]
   R.require(len(st) == 1, 'to_predicate: single if/elif chain expected')
+  class _Br:   # one arm of the dispatch, polarity-normalised: `if not T: A else: B` reads as `if T: B else: A`
+    def __init__(self, test, body, node):
+      self.test, self.body, self.node, self.lineno = test, body, node, node.lineno
   cur = st[0]
   final_else = None
   while True:
-    chain.append(cur)
-    if len(cur.orelse) == 1 and isinstance(cur.orelse[0], ast.If):
-      cur = cur.orelse[0]
+    test, body, orelse = cur.test, cur.body, cur.orelse
+    if isinstance(test, ast.UnaryOp) and isinstance(test.op, ast.Not) and orelse:
+      test, body, orelse = test.operand, orelse, body
+    chain.append(_Br(test, body, cur))
+    if len(orelse) == 1 and isinstance(orelse[0], ast.If):
+      cur = orelse[0]
     else:
-      final_else = cur.orelse
+      final_else = orelse
       break
   P = lambda n: filter_param
   filter_param = astu.params(f.node)[0]
@@ -241,7 +247,7 @@ def r5(R, repo):
     for a in ('type',):
       R.judge(a in handled, a in handled and handled[a] < handled['Predicate'], key_of(f, '%s tested before callable' % a), f,
               '`isinstance(filter, %s)` must be tested before `callable(filter)`: a class is callable and would be used as a predicate' % a)
-  R.check(bool(final_else) and isinstance(final_else[-1], ast.Raise), key_of(f, 'else raises'), f, 'to_predicate must raise for non-filters')
+  R.check(bool(final_else) and any(isinstance(s_, ast.Raise) for s_ in final_else), key_of(f, 'else raises'), f, 'to_predicate must raise for non-filters')
   # which predicate each branch builds
   table = {'str': 'WithTag', 'type': 'OfType', 'ellipsis': 'Everything', 'None': 'Nothing', 'tuple': 'Any', 'list': 'Any'}
   for a, ctor in sorted(table.items()):
@@ -254,17 +260,19 @@ def r5(R, repo):
       ok = [astu.src(x) for x in rets[0].value.args] == [filter_param]
     if ok and ctor == 'Any':
       ok = len(rets[0].value.args) == 1 and isinstance(rets[0].value.args[0], ast.Starred) and astu.src(rets[0].value.args[0].value) == filter_param
-    R.judge(len(rets) == 1 and isinstance(rets[0].value, ast.Call) and astu.call_name(rets[0].value) in set(table.values()) | {'Not', 'All'}, ok, key_of(f, '%s -> %s' % (a, ctor)), (f, node), 'a %s filter must become %s(...)' % (a, ctor))
+    R.judge(len(rets) == 1 and isinstance(rets[0].value, ast.Call) and astu.call_name(rets[0].value) in set(table.values()) | {'Not', 'All'}, ok, key_of(f, '%s -> %s' % (a, ctor)), (f, node.node), 'a %s filter must become %s(...)' % (a, ctor))
   if 'bool' in handled:
     node = chain[handled['bool']]
     inner = [s for s in node.body if isinstance(s, ast.If)]
     _rets = lambda blk: [astu.src(s_) for s_ in blk if isinstance(s_, ast.Return)]
+    if len(inner) == 1 and isinstance(inner[0].test, ast.UnaryOp) and isinstance(inner[0].test.op, ast.Not):
+      inner = [ast.If(test=inner[0].test.operand, body=inner[0].orelse, orelse=inner[0].body)]
     ok = len(inner) == 1 and astu.src(inner[0].test) == filter_param and \
         _rets(inner[0].body) == ['return Everything()'] and _rets(inner[0].orelse) == ['return Nothing()']
-    R.judge(len(inner) == 1 and astu.src(inner[0].test) == filter_param and len(_rets(inner[0].body)) == 1 and len(_rets(inner[0].orelse)) == 1, ok, key_of(f, 'bool -> Everything/Nothing'), (f, node), 'True must become Everything() and False Nothing()')
+    R.judge(len(inner) == 1 and astu.src(inner[0].test) == filter_param and len(_rets(inner[0].body)) == 1 and len(_rets(inner[0].orelse)) == 1, ok, key_of(f, 'bool -> Everything/Nothing'), (f, node.node), 'True must become Everything() and False Nothing()')
   if 'Predicate' in handled:
     node = chain[handled['Predicate']]
-    R.check([astu.src(s_) for s_ in node.body if isinstance(s_, ast.Return)] == ['return %s' % filter_param], key_of(f, 'callable passes through'), (f, node),
+    R.check([astu.src(s_) for s_ in node.body if isinstance(s_, ast.Return)] == ['return %s' % filter_param], key_of(f, 'callable passes through'), (f, node.node),
             'a predicate must be returned unchanged')
 
 
